@@ -35,9 +35,10 @@ def main():
     ap.add_argument("--props", default="all")
     ap.add_argument("--tier", default="quick")
     ap.add_argument("--src")
+    ap.add_argument("--name", help="directory name under seeded/ (default <PROP>-<variant>)")
     args = ap.parse_args()
     src = args.src or "/tmp/seed/%s/SEED" % args.prop
-    name = "%s-%s" % (args.prop, args.variant)
+    name = args.name or "%s-%s" % (args.prop, args.variant)
     dest = os.path.join(ROOT, "seeded", name)
     diff = os.path.join(src, "variant%s.diff" % args.variant)
     demo = os.path.join(src, "demo_%s.py" % args.variant)
